@@ -198,3 +198,162 @@ Example C07_ex_set_missing_node :
   step d75_state (ISetU 1 ["x"; "q"] 0) = (d75_state, Raised EKey)
   /\ snd (step (run empty_st ex_prog) (ISetU 3 ["n"; "c"] 1)) = Done.
 Proof. split; vm_compute; reflexivity. Qed.
+
+(* ================================================================================================================================
+   The other container kinds (Model/C07_Ext.v): _SubTensorDict windows, lazy stacks, memmap_ / share_memory_.
+   State = the regular state + the windows (source node, index) and the stacks (member nodes, per-member positions) the caller holds.
+   Every theorem quantifies over EVERY extended state, hence over every state reached by any history of regular, window, stack
+   and conversion instructions. *)
+From TD Require Import Model.C07_Ext Proofs.C07_ExtP.
+
+(* out-of-place operations of the other kinds — creating a window / a stack, get through a window or a stack, clone / to_tensordict,
+   clone(False), select / exclude through a window, out-of-place arithmetic through a window, lazy.clone, lazy.flatten_keys, and the
+   conversions memmap_ / share_memory_ themselves — never write a pre-existing storage, whether they succeed or raise *)
+Theorem C07_x_outofplace_pure : forall s i,
+  xwrites_possible i = false -> stor_ext (hp (xb s)) (hp (xb (fst (xstep s i)))).
+Proof. exact xstep_pure. Qed.
+Print Assumptions C07_x_outofplace_pure.
+
+Theorem C07_x_outofplace_pure_history : forall prog s,
+  forallb (fun i => negb (xwrites_possible i)) prog = true -> stor_ext (hp (xb s)) (hp (xb (xrun s prog))).
+Proof. exact xrun_pure. Qed.
+Print Assumptions C07_x_outofplace_pure_history.
+
+(* in-place operations through a window (set_, update_/copy_, set_at_, fill_, zero_, underscore arithmetic, augmented assignment;
+   basic AND advanced windows) and through a stack (set_, update_/copy_, lazy[idx] = td on member-level indices, fill_, zero_,
+   underscore arithmetic): every pre-existing node keeps its key -> entry bindings (the source's / the members' storages keep
+   their identity, no new binding), every pre-existing storage keeps its size, the caller's handles (registers, windows, stacks)
+   are the same; only temporaries nobody holds may be appended.  Whether the operation succeeds or raises. *)
+Theorem C07_x_inplace_keeps : forall s i,
+  xclassify i = XCInplace ->
+  keeps (hp (xb s)) (hp (xb (fst (xstep s i)))) /\ xhandles_same s (fst (xstep s i)).
+Proof. exact xstep_inplace_keeps. Qed.
+Print Assumptions C07_x_inplace_keeps.
+
+Theorem C07_x_inplace_keeps_history : forall prog s,
+  forallb (fun i => match xclassify i with XCInplace => true | _ => false end) prog = true ->
+  keeps (hp (xb s)) (hp (xb (xrun s prog))) /\ xhandles_same s (xrun s prog).
+Proof. exact xrun_inplace. Qed.
+Print Assumptions C07_x_inplace_keeps_history.
+
+(* a write through a window (sub.set_(k, v), basic or advanced index): exactly the source cells the window maps to take the new
+   values — every alias of the source entry reads them — and every other cell of every storage keeps its content *)
+Theorem C07_sub_set_exact : forall h n nd w k d v h',
+  get_node h n = Some nd -> ents_get (nents nd) k = Some (RLeaf d) ->
+  sub_set_ h n w [k] (RLeaf v) = (h', Done) ->
+  nodupb (vcells (wview w d)) = true -> in_bounds h (wview w d) ->
+  (forall a i j c, vsid a = vsid d -> nth_error (vcells a) i = Some c -> nth_error (vcells (wview w d)) j = Some c ->
+                   nth i (read h' a) 0%Z = nth j (read h v) 0%Z)
+  /\ (forall s c, ~ (s = vsid d /\ In c (vcells (wview w d))) -> cell h' s c = cell h s c)
+  /\ inplace_frame h h'.
+Proof. exact sub_set_exact. Qed.
+Print Assumptions C07_sub_set_exact.
+
+(* in-place arithmetic through a window runs the kernels on views of the source's own entries.
+   Full statement: for every window.  FALSE of the code (D70: an advanced window hands the kernels gathered copies). *)
+Definition C07_sub_arith_full_statement : Prop := forall s si f, sub_arith_on_source s si f.
+Theorem C07_sub_arith_refuted : exists s si f,
+  xclassify (XSubUnaryU si f) = XCInplace /\ snd (xstep s (XSubUnaryU si f)) = Done /\ ~ sub_arith_on_source s si f.
+Proof. exists d70_state, 0, PNeg. destruct d70_witness as [A [B [_ D]]]. repeat split; assumption. Qed.
+Print Assumptions C07_sub_arith_refuted.
+(* ... and holds on the complement (basic windows), where moreover nothing is allocated or rebound and only the source's own
+   storages change *)
+Theorem C07_sub_arith_partial : forall s si f sh ls,
+  xsub s si = Some sh -> wbasic (swin sh) = true -> leaves_of (hp (xb s)) (RNode (ssrc sh)) = Some ls ->
+  sub_arith_on_source s si f
+  /\ inplace_frame (hp (xb s)) (hp (xb (fst (xstep s (XSubUnaryU si f)))))
+  /\ only_storages (leaf_sids ls) (hp (xb s)) (hp (xb (fst (xstep s (XSubUnaryU si f))))).
+Proof.
+  intros s si f sh ls Hs Hb Hl. split; [eapply sub_arith_basic; eauto|eapply sub_arith_basic_frame; eauto].
+Qed.
+Print Assumptions C07_sub_arith_partial.
+
+(* lazy.get(leaf key) is a fresh tensor: its storage did not exist, and writing into it changes no pre-existing storage — hence
+   no member *)
+Theorem C07_lazy_get_fresh : forall s li p L vs,
+  xlz s li = Some L -> all_some (map (member_leaf (hp (xb s)) p) (lmem L)) = Some vs ->
+  exists h1 v, xstep s (XLazyGet li p) = (xpush s h1 (RLeaf v), Done)
+    /\ fresh_view (hp (xb s)) v /\ stor_ext (hp (xb s)) h1 /\ hnodes h1 = hnodes (hp (xb s))
+    /\ forall chk vals h2 o, write_c chk h1 v vals = (h2, o) ->
+         forall sid, sid < List.length (hstor (hp (xb s))) -> get_stor h2 sid = get_stor (hp (xb s)) sid.
+Proof. exact lazy_get_fresh. Qed.
+Print Assumptions C07_lazy_get_fresh.
+
+(* in-place arithmetic / zero_ through a stack = in-place on the members' own storages *)
+Theorem C07_lazy_arith_footprint : forall s li L ls i,
+  xlz s li = Some L -> lazy_leaves (hp (xb s)) L = Some ls ->
+  (exists f, i = XLazyUnaryU li f) \/ (exists z, i = XLazyConstU li z) ->
+  inplace_frame (hp (xb s)) (hp (xb (fst (xstep s i)))) /\ only_storages (leaf_sids ls) (hp (xb s)) (hp (xb (fst (xstep s i)))).
+Proof. exact lazy_arith_footprint. Qed.
+Print Assumptions C07_lazy_arith_footprint.
+
+(* set_ through a stack IS the regular set_ (ISetU) on every member in turn, with value.unbind(stack_dim)[j] — a view of the
+   value — as value: C07_inplace_keeps / C07_alias_observes apply to each member write *)
+Theorem C07_lazy_set_is_member_set : forall h L p v,
+  lazy_set_ h L p v =
+  if negb (match p with
+           | [k] => forallb (fun m => match get_node h m with Some nd => ents_has (nents nd) k | None => false end) (lmem L)
+           | _ => true end)
+  then (h, Raised EKey)
+  else fold_out (fun h0 (ms : nat * list nat) =>
+                   let s' := fst (step (mkSt h0 [RNode (fst ms); RLeaf (subview v (lnb L) (snd ms))]) (ISetU 0 p 1)) in
+                   (hp s', snd (step (mkSt h0 [RNode (fst ms); RLeaf (subview v (lnb L) (snd ms))]) (ISetU 0 p 1))))
+                h (zip (lmem L) (lsel L)).
+Proof. exact lazy_set_is_member_set. Qed.
+Print Assumptions C07_lazy_set_is_member_set.
+
+(* lazy.get(nested key) is the stack of the members' own nested nodes: nothing is allocated, member handles stay aliases *)
+Theorem C07_lazy_get_node_shares : forall s li p L ns,
+  xlz s li = Some L -> all_some (map (member_leaf (hp (xb s)) p) (lmem L)) = None ->
+  all_some (map (member_node (hp (xb s)) p) (lmem L)) = Some ns ->
+  xstep s (XLazyGet li p) = (xpush_lazy s (hp (xb s)) (mkLazy ns (lnb L) (lsel L)), Done).
+Proof. exact lazy_get_node_shares. Qed.
+Print Assumptions C07_lazy_get_node_shares.
+
+(* flatten_keys (a view-producing operation by its documentation) on a stack.  Full statement: the result's entries live in the
+   members' storages.  FALSE of the code (D73: stacked copies). *)
+Definition C07_lazy_flatten_shares_full_statement : Prop := lazy_flatten_shares_statement.
+Theorem C07_lazy_flatten_shares_refuted : ~ C07_lazy_flatten_shares_full_statement.
+Proof. exact lazy_flatten_shares_refuted. Qed.
+Print Assumptions C07_lazy_flatten_shares_refuted.
+
+(* memmap_ is a rebinding step: it writes no pre-existing storage, keeps every node identity and every handle; share_memory_
+   rebinds nothing *)
+Theorem C07_conversion_rebinds_only : forall s r,
+  let s' := fst (xstep s (XMemmap r)) in
+  stor_ext (hp (xb s)) (hp (xb s')) /\ List.length (hnodes (hp (xb s'))) = List.length (hnodes (hp (xb s))) /\ xhandles_same s s'.
+Proof. exact conversion_rebinds_only. Qed.
+Print Assumptions C07_conversion_rebinds_only.
+
+(* the class theorems in the state reached by any history of regular / window / stack instructions FOLLOWED BY a conversion:
+   in-place / out-of-place classification afterwards is the same (the per-state theorems C07_select_shares, C07_exclude_shares,
+   C07_flatten_keys_shares, C07_alias_observes hold in that state too: they quantify over every state) *)
+Theorem C07_after_conversion : forall hist c r i,
+  c = XMemmap r \/ c = XShare r ->
+  let s := xb (fst (xstep (xrun empty_xst hist) c)) in
+  (writes_possible i = false -> stor_ext (hp s) (hp (fst (step s i)))) /\
+  (classify i = CInplace -> inplace_frame (hp s) (hp (fst (step s i))) /\ regs (fst (step s i)) = regs s).
+Proof. intros hist c r i _ s. split; [apply step_pure|apply step_inplace_frame]. Qed.
+Print Assumptions C07_after_conversion.
+
+(* non-vacuity *)
+Example C07_ex_sub_set :
+  let s := exw_state in
+  let s' := fst (xstep s (XSubSetU 0 ["a"%string] 4)) in
+  snd (xstep s (XSubSetU 0 ["a"%string] 4)) = Done /\ get_stor (hp (xb s')) 0 = [1; 2; 50; 4; 60; 6]%Z /\
+  nodupb (vcells (wview (mkWin 3 [1; 2] true) (mkView 0 [0; 2; 4]))) = true /\
+  xclassify (XSubSetU 0 ["a"%string] 4) = XCInplace /\ xwrites_possible (XSubClone 0) = false.
+Proof. vm_compute. repeat split. Qed.
+Example C07_ex_sub_arith_basic :
+  let s := exw_state in
+  xsub s 0 = Some (mkSub 1 (mkWin 3 [1; 2] true)) /\
+  hstor (hp (xb (fst (xstep s (XSubUnaryU 0 PNeg))))) = [[1; 2; -3; 4; -5; 6]; [7; -8; -9]; [50; 60]]%Z.
+Proof. vm_compute. repeat split. Qed.
+Example C07_ex_lazy :
+  let s := d73_state in
+  let sg := fst (xstep s (XLazyGet 0 ["a"%string])) in
+  let sn := fst (xstep s (XLazyUnaryU 0 PNeg)) in
+  snd (xstep s (XLazyGet 0 ["a"%string])) = Done /\ last (regs (xb sg)) (RNode 0) = RLeaf (mkView 2 [0; 1; 2; 3]) /\
+  hstor (hp (xb sg)) = [[1; 2]; [3; 4]; [1; 2; 3; 4]]%Z /\ hstor (hp (xb sn)) = [[-1; -2]; [-3; -4]]%Z /\
+  hstor (hp (xb (fst (xstep s (XMemmap 1))))) = [[1; 2]; [3; 4]; [1; 2]]%Z.
+Proof. vm_compute. repeat split. Qed.
